@@ -35,6 +35,11 @@ def run(ctx: Ctx) -> None:
     rep.rule("C08.R8", "every path of a commit batch is committed (no early exit from the loop of sync_paths, in any store)")
     n8 = S.every_path_processed(ctx, "C08.R8")
     rep.floor("C08.R8", n8, 2)
+    from .c17 import codec_duals
+    rep.rule("C08.R9", "as C17.R4: a blob is fetched back equal: serialize_into / deserialize_from of every codec are duals (same open mode - binary -, same encoding, "
+                       "dual operations, the location parameter is the file that is opened)")
+    n9 = codec_duals(ctx, "C08.R9", "C08.R9")
+    rep.floor("C08.R9", n9, 4)
     rep.rule("C08.R5", "store_blob returns normally only after the commit marker is published (a stored key is reported present)")
     S.store_always_publishes(ctx, v, "C08.R5")
     rep.rule("C08.R6", "committing a path removes / replaces nothing but that path's own entry; the cache wrapper answers path queries from the store")
